@@ -23,6 +23,9 @@ pub enum Exports {
 pub struct RegFile {
   pub lang: Lang,
   pub items: Vec<Item>,
+  /// raw source text (generated TypeScript packages); overrides `items`
+  #[serde(default, skip_serializing_if = "Option::is_none")]
+  pub text: Option<String>,
 }
 
 #[derive(Clone, Debug, Serialize, Deserialize, PartialEq, Eq)]
@@ -83,7 +86,10 @@ pub fn file_url(name: &str, version: &str, path: &str) -> String {
 }
 
 pub fn file_bytes(f: &RegFile) -> Vec<u8> {
-  world::render(f.lang, &f.items).into_bytes()
+  match &f.text {
+    Some(t) => t.clone().into_bytes(),
+    None => world::render(f.lang, &f.items).into_bytes(),
+  }
 }
 
 fn media_type_for(path: &str) -> deno_graph::MediaType {
@@ -100,7 +106,7 @@ pub fn module_info_json(
   f: &RegFile,
 ) -> Option<serde_json::Value> {
   let url = Url::parse(&file_url(name, version, path)).ok()?;
-  let text: std::sync::Arc<str> = world::render(f.lang, &f.items).into();
+  let text: std::sync::Arc<str> = String::from_utf8(file_bytes(f)).ok()?.into();
   let info = deno_graph::ast::ParserModuleAnalyzer::default()
     .analyze_sync(&url, text, media_type_for(path))
     .ok()?;
